@@ -277,7 +277,11 @@ impl<'map> CatchPerformance<'map> {
             .misses
             .map_or(0, |n| cmp::min(n, attrs.n_fruits + attrs.n_droplets));
 
-        let max_combo = self.combo.unwrap_or_else(|| attrs.max_combo() - misses);
+        let max_possible_combo = attrs.max_combo().saturating_sub(misses);
+
+        let max_combo = self.combo.map_or(max_possible_combo, |combo| {
+            cmp::min(combo, max_possible_combo)
+        });
 
         let mut best_state = CatchScoreState {
             max_combo,
